@@ -93,8 +93,16 @@ OPS = {
     "none_broadcast": lambda e: e.n1.broadcast([Axis(np.array([5]), "n"), e.n1.axes[1].copy()]),
     "none_bca": lambda e: da.broadcast_arrays(e.n1, DimArray(np.zeros((1, 3)), axes=[Axis(np.array([5]), "n"), e.n1.axes[1].copy()])),
     "none_add": lambda e: e.n1 + DimArray(np.zeros((1, 3)), axes=[Axis(np.array([5]), "n"), e.n1.axes[1].copy()]),
+    # ---- statistics of dimarray.lib.stats along an axis that is not the first one, on float labels
+    "percentile_ax1": lambda e: da.percentile(e.fl, [50, 90], axis=1), "quantile_ax1": lambda e: _stats().quantile(e.fl, [0.5, 0.9], axis=1),
+    "quantile_ax0": lambda e: _stats().quantile(e.fl, [0.5, 0.9], axis="p"), "quantile_scalar": lambda e: _stats().quantile(e.fl, 0.5, axis=-1),
     "none_array": lambda e: da.array([e.n1, DimArray(np.zeros((1, 3)), axes=[Axis(np.array([5]), "n"), e.n1.axes[1].copy()])], axis="s"),
 }
+
+
+def _stats():
+    import dimarray.lib.stats as st
+    return st
 
 
 def _ds_set(e):
@@ -145,9 +153,11 @@ def make_env(variant="fresh", semicolon=False):
     e.am = e.an[e.an > float(np.nanmin(e.an.values))]       # public indexing: 1-D, its axis is a plain Axis named "<x>,y" with tuple labels
     e.w = D.build_impl(D.spec(["w"], [[7, 5]], ["i"], base=6))
     e.n1 = e.a1.newaxis("n")
+    e.fl = D.build_impl(D.spec(["p", "q"], [[0.5, 1.5], [30.0, 10.0, 20.0]], ["f", "f"], base=8, attrs={"units": "m"}))
+    e.flT = e.fl.T
     e.n1T = e.n1.T                    # live alias sharing the Axis objects of n1
     e.operands = {"a": e.a, "aT": e.aT, "a3": e.a3, "an": e.an, "b": e.b, "a1": e.a1, "a0": e.a0, "ds": e.ds, "ds2": e.ds2, "ds2b": e.ds2b,
-                  "am": e.am, "w": e.w, "n1": e.n1, "n1T": e.n1T}
+                  "am": e.am, "w": e.w, "n1": e.n1, "n1T": e.n1T, "fl": e.fl, "flT": e.flT}
     return e
 
 
@@ -159,4 +169,5 @@ def adapt(name, semicolon):
 
 SEMI_OPS = ["reshape", "reshape_fail", "reshape_same", "reshape_group", "flatten", "unflatten", "T", "newaxis", "add", "align_outer", "stack", "Dataset_ctor", "sum_all", "cumsum", "copy",
             "mask_add", "mask_rmul", "mask_reshape", "mask_broadcast", "mask_bca", "mask_array", "mask_newaxis", "mask_stack",
-            "none_broadcast", "none_bca", "none_add", "none_array"]
+            "none_broadcast", "none_bca", "none_add", "none_array",
+            "percentile_ax1", "quantile_ax1", "quantile_ax0", "quantile_scalar"]
